@@ -105,7 +105,33 @@ static void bspline_monitor(Report & rep)
     }
     std::vector<Mat> cl;
     for (auto & g : ctrl) cl.push_back(elemL(l, g));
-    const smooth::BSpline<K, G> spl(t0, dt, ctrl);
+    // every construction route must give the same object: range constructor (lvalue vector), rvalue-vector constructor
+    // (temporary and std::move), copies and moves of those
+    const int route = r.below(5);
+    const smooth::BSpline<K, G> spl = [&]() -> smooth::BSpline<K, G> {
+      switch (route) {
+        case 0: return smooth::BSpline<K, G>(t0, dt, ctrl);
+        case 1: return smooth::BSpline<K, G>(t0, dt, std::vector<G>(ctrl));
+        case 2: {
+          std::vector<G> tmp = ctrl;
+          smooth::BSpline<K, G> a(t0, dt, std::move(tmp));
+          smooth::BSpline<K, G> b = a;  // copy
+          return b;
+        }
+        case 3: {
+          smooth::BSpline<K, G> a;
+          a = smooth::BSpline<K, G>(t0, dt, std::vector<G>(ctrl));  // move assignment over a default-constructed one
+          return a;
+        }
+        default: {
+          const std::vector<G> & cref = ctrl;
+          smooth::BSpline<K, G> a(t0, dt, cref);
+          smooth::BSpline<K, G> b(std::move(a));
+          return b;
+        }
+      }
+    }();
+    rep.count("C13.construction_route." + std::to_string(route));
     const std::string st = "N=" + std::to_string(N <= K + 2 ? N : (N < 12 ? 10 : 30)) + ",dt:" + decade(dt);
     Vec allc(long(N) * l.rep);
     for (int i = 0; i < N; ++i) allc.segment(long(i) * l.rep, l.rep) = rawL(ctrl[size_t(i)]);
